@@ -3,6 +3,7 @@
 
 #pragma once
 
+#include <limits>
 #include <utility>
 
 #ifdef RKCOMMON_TASKING_TBB
@@ -28,7 +29,18 @@ namespace rkcommon {
           fcn(taskIndex);
         }
 #elif defined(RKCOMMON_TASKING_INTERNAL)
-        detail::parallel_for_internal(nTasks, std::forward<TASK_T>(fcn));
+        // the internal task system sizes a task set with an int: run nothing
+        // for an empty or negative count (it used to wrap around to ~4e9
+        // tasks) and process counts beyond INT_MAX in chunks instead of
+        // truncating them
+        const unsigned long long maxChunk = std::numeric_limits<int>::max();
+        for (INDEX_T begin = 0; begin < nTasks;) {
+          const unsigned long long left = (unsigned long long)(nTasks - begin);
+          const int chunk = int(left < maxChunk ? left : maxChunk);
+          detail::parallel_for_internal(
+              chunk, [&](int i) { fcn(INDEX_T(begin + INDEX_T(i))); });
+          begin = INDEX_T(begin + INDEX_T(chunk));
+        }
 #else // Debug (no tasking system)
         for (INDEX_T taskIndex = 0; taskIndex < nTasks; ++taskIndex) {
           fcn(taskIndex);
